@@ -120,12 +120,7 @@ fn replay_one(cfg: &Config, b: &Value, timeout: Duration) -> (Value, Vec<sched::
         for (k, l) in steps.iter().enumerate() {
             let role = l["t"].as_str().unwrap_or("?");
             let ans = l["ans"].as_str().unwrap_or("-");
-            if !s.has_pending(role) && s.is_parked(role) {
-                s.release(role, ans);
-            }
-            // otherwise the thread has not shown up yet (a new worker / delivery thread) or its
-            // event is already there: just wait for it
-            let e = match s.wait_event(role, timeout) {
+            let e = match s.step(role, ans, timeout) {
                 Some(e) => e,
                 None => {
                     result = json!({"outcome": "blocked", "step": k, "expected": l,
@@ -156,14 +151,25 @@ fn replay_one(cfg: &Config, b: &Value, timeout: Duration) -> (Value, Vec<sched::
     }
     // let everything run to the end
     s.set_mode(Mode::Free);
-    let tail = finish(handles, store);
+    let expect_hang = b["end"] == "deadlock" && result["outcome"] == "followed";
+    let tail = finish(handles, store, expect_hang);
     result["tail"] = json!(tail);
     s.unregister();
     (result, s.take_log())
 }
 
-fn finish(handles: Vec<std::thread::JoinHandle<()>>, store: Arc<TStore>) -> &'static str {
-    let deadline = Instant::now() + Duration::from_secs(8);
+fn finish(
+    handles: Vec<std::thread::JoinHandle<()>>,
+    store: Arc<TStore>,
+    expect_hang: bool,
+) -> &'static str {
+    // a behaviour that ends in a deadlock of the model: only confirm that the threads are stuck
+    let deadline = Instant::now()
+        + if expect_hang {
+            Duration::from_millis(400)
+        } else {
+            Duration::from_secs(8)
+        };
     for h in handles {
         while !h.is_finished() {
             if Instant::now() > deadline {
